@@ -97,6 +97,78 @@ def run_stems(report, n, rng):
     evaluate_corr(report, IMPORTS, "C12", "gid_stem", "stem_case", cases, metas, "stem_agree", "stem_agree")
 
 
+def run_glyphmap_rows(report, n, rng):
+    """the real `python -m nanoemoji.write_glyphmap_for_glyph_svgs` on lists of "<gid>.svg" / "<gid>.png" names in
+    various argument orders (the order maximum_color uses, bitmaps first, interleaved, a bitmap without its SVG)
+    against Model.GlyphmapPairs.glyphmap_rows (Corr.C12.gm_agree); a failed run is None on both sides"""
+    import csv
+    import io as _io
+    from concurrent.futures import ThreadPoolExecutor
+
+    font = fontgen.build_layout_font(with_colr=None)
+    nglyphs = len(font.getGlyphOrder())
+    plans = []
+    for i in range(n):
+        k = rng.randint(1, 6)
+        svgs = rng.sample(range(1, nglyphs), k)
+        kind = ["svgs-then-bitmaps", "no-bitmaps", "some-bitmaps", "bitmaps-first", "interleaved", "bitmap-without-svg"][i % 6]
+        if kind == "svgs-then-bitmaps":
+            pngs = list(svgs)
+            rng.shuffle(pngs)
+            files = [(g, False) for g in svgs] + [(g, True) for g in pngs]
+        elif kind == "no-bitmaps":
+            files = [(g, False) for g in svgs]
+        elif kind == "some-bitmaps":
+            files = [(g, False) for g in svgs] + [(g, True) for g in svgs if rng.random() < 0.5]
+        elif kind == "bitmaps-first":
+            files = [(g, True) for g in svgs] + [(g, False) for g in svgs]
+        elif kind == "interleaved":
+            files = [(g, p) for g in svgs for p in (rng.random() < 0.5, )]
+            files += [(g, not p) for g, p in files]
+            rng.shuffle(files)
+        else:
+            extra = rng.choice([g for g in range(1, nglyphs) if g not in svgs])
+            files = [(g, False) for g in svgs] + [(g, True) for g in svgs] + [(extra, True)]
+        plans.append((kind, files))
+
+    def work(plan):
+        kind, files = plan
+        with scratch_dir("verif-gm-") as d:
+            d = Path(d)
+            font.save(str(d / "font.ttf"))
+            names = [f"{g:05d}.{'png' if p else 'svg'}" for g, p in files]
+            rc, out = build.run_cli(["--output_file", d / "out.csv", d / "font.ttf"] + names, cwd=d, prog="nanoemoji.write_glyphmap_for_glyph_svgs")
+            if rc != 0:
+                return None, out[-300:]
+            rows = []
+            for row in csv.reader(_io.StringIO((d / "out.csv").read_text())):
+                if not row:
+                    continue
+                svg_file, bitmap_file = row[0].strip(), row[1].strip()
+                rows.append((int(Path(svg_file).stem), bool(bitmap_file), row[2].strip()))
+            return rows, ""
+
+    with ThreadPoolExecutor(8) as ex:
+        outs = list(ex.map(work, plans))
+    cases, metas = [], []
+    order = font.getGlyphOrder()
+    for (kind, files), (rows, log) in zip(plans, outs):
+        report.hist("glyphmap_rows.kind", kind)
+        report.hist("glyphmap_rows.outcome", "rows" if rows is not None else "stopped with an error")
+        report.count(("gmrows", kind, tuple(files)), True)
+        meta = dict(kind="corr", function="write_glyphmap_for_glyph_svgs.main", order=kind, files=[f"{g:05d}.{'png' if p else 'svg'}" for g, p in files], rows=rows, log=log)
+        if rows is not None:
+            wrong = [r for r in rows if order[r[0]] != r[2]]
+            if wrong:
+                report_failure(report, f"glyphmap_name_{len(cases)}", dict(meta, problem=f"row for file {wrong[0][0]:05d} names glyph {wrong[0][2]!r}, glyph id {wrong[0][0]} is {order[wrong[0][0]]!r}"))
+                return
+        fl = common.listlit([f"({g}%nat, {'true' if p else 'false'})" for g, p in files])
+        ol = "None" if rows is None else "(Some " + common.listlit([f"({g}%nat, {'true' if b else 'false'})" for g, b, _ in rows]) + ")"
+        cases.append(f"({fl}, {ol})")
+        metas.append(meta)
+    evaluate_corr(report, IMPORTS, "C12", "glyphmap_rows", "gm_case", cases, metas, "gm_agree", "gm_agree")
+
+
 # ---------------------------------------------------------------- end to end
 def _save(font):
     b = io.BytesIO()
@@ -375,7 +447,7 @@ def run_e2e(report, n, rng, jobs=6):
             return plan, dict(kind="e2e", input=kind, error=f"input generation: {type(ex).__name__}: {ex}"), None
         case = dict(kind="e2e", input=kind, flags=flags, **info)
         rc, log, kept = run_maximum_color(data, flags + ["--keep_glyph_names"])
-        res = dict(rc=rc, log=log[-2500:] if rc else "", kept=kept, data=data)
+        res = dict(rc=rc, log=log if rc else "", kept=kept, data=data)
         if strip and rc == 0:
             rc2, log2, st = run_maximum_color(data, flags)
             res.update(rc2=rc2, log2=log2[-2500:] if rc2 else "", stripped=st)
@@ -419,7 +491,8 @@ def run_e2e(report, n, rng, jobs=6):
                 continue
         if res["rc"] != 0 or res["kept"] is None:
             case["problems"] = ["maximum_color failed on a font it should handle"]
-            case["log"] = res["log"]
+            i_fail = res["log"].find("FAILED")
+            case["log"] = res["log"][max(0, i_fail) : max(0, i_fail) + 2500] if i_fail >= 0 else res["log"][-2500:]
             report_failure(report, f"e2e_{i}", case)
             return
         inp = load(res["data"])
@@ -464,7 +537,8 @@ def main(argv):
     report = Report("C12", tier, common.seed_from_env())
     report.rule = (
         "model correspondence: the real glue_together._copy_svg order construction (fake fonts, reorder_glyphs captured) on "
-        "random target orders / donor SVG ranges incl. the IndexError case, and the {gid:05d} naming, against the Coq model; "
+        "random target orders / donor SVG ranges incl. the IndexError case, the {gid:05d} naming, and the rows the real "
+        "write_glyphmap_for_glyph_svgs module prints for file lists in several argument orders (incl. the ones it must refuse), against the Coq model; "
         "end to end: fonts nanoemoji emits (glyf COLRv0/COLRv1, CFF and CFF2 COLRv1, picosvg, untouchedsvg; sequences; kept or stripped names) and "
         "hand-made-style COLRv0/v1 fonts with kerning/mark/ligature lookups and extra palettes, through the real "
         "`python -m nanoemoji.maximum_color` CLI x {--bitmaps, --colr_version, --keep_glyph_names}; input vs output "
@@ -476,12 +550,13 @@ def main(argv):
     rng = random.Random(report.seed)
     run_order(report, 400 if tier == "quick" else 6000, rng)
     run_stems(report, 300 if tier == "quick" else 3000, rng)
+    if common.vo_ok("Model/GlyphmapPairs.v"):
+        run_glyphmap_rows(report, 18 if tier == "quick" else 240, random.Random(rng.getrandbits(48)))
     run_e2e(report, 20 if tier == "quick" else 320, rng, jobs=8)
     if not st["proof_ok"] and not report.violations:
         report.violation("proof", dict(kind="proof", theorem="Props/C12.v", detail=report.notes.get("proof_failure")), found_input=False)
     report.open_obligations = [
         "_copy_colr (layer glyphs appended once, metrics assertion) and _copy_cbdt re-sharding are checked on every generated font, not yet modelled in Coq",
-        "write_glyphmap_for_glyph_svgs' png/svg pairing by sorted stem is exercised by every --bitmaps run, not modelled",
         "COLR->SVG (C13) and SVG->COLR (C01/C03) picture preservation are separate theorems; their composition with T4/T5 into one statement about maximum_color is by the end-to-end oracle only",
         "CBDT pictures are only checked to be decodable, non-empty PNGs for exactly the colour glyphs (resvg rasterisation is outside the model)",
     ]
